@@ -53,7 +53,14 @@ def gen_case(rng: random.Random, tier: str) -> dict:
                 terms.append({"scale": None, "scale_pos": 0, "factors": ["ctx0"]})
     icpt = rng.random() < 0.7
     mat = rng.choice(["pandas", "pandas", "narwhals"])
+    na = "drop"
+    if rng.random() < 0.25:  # missing values kept in the matrix: every product involving one is itself missing
+        na = "ignore"
+        for _nm, c in frame["cols"]:
+            if c["kind"] == "num" and c.get("dtype", "float64") == "float64":
+                c["values"] = [None if rng.random() < 0.15 else v for v in c["values"]]
     return {
+        "na": na,
         "frame": frame, "terms": terms, "factors": factors, "icpt": icpt,
         "formula": gen.formula_text(terms, factors, icpt, rng),
         "efr": rng.random() < 0.5, "output": rng.choice(["pandas", "numpy", "sparse"]), "mat": mat, "ctx": ctx,
@@ -72,7 +79,7 @@ def expected_subcolumn(part: str, case: dict, cache: dict) -> tuple[np.ndarray, 
             k = int(part[len(fa["label"]) + 1:-1])
             from ..data import col_values
 
-            return np.array(col_values(frame, fa["base"]), dtype=float) ** (k + 1), key
+            return np.array([np.nan if v is None else v for v in col_values(frame, fa["base"])], dtype=float) ** (k + 1), key
         if fa["kind"] == "cat" and part.startswith(fa["label"] + "["):
             inner = part[len(fa["label"]) + 1:-1]
             lv = inner[2:] if inner.startswith("T.") else inner
@@ -90,7 +97,7 @@ def judge(case: dict) -> Outcome:
     out = Outcome()
     shapes = tuple(sorted((tuple(sorted(case["factors"][f]["kind"] for f in t["factors"])), bool(t["scale"])) for t in case["terms"]))
     nontrivial = any(len(t["factors"]) >= 2 or t["scale"] for t in case["terms"])
-    out.sig = (shapes, case["efr"], case["output"], case["mat"], case["icpt"]) if nontrivial else None
+    out.sig = (shapes, case["efr"], case["output"], case["mat"], case["icpt"], case.get("na", "drop")) if nontrivial else None
     df = make_frame(case["frame"])
     n = nrows(case["frame"])
     try:
@@ -98,7 +105,7 @@ def judge(case: dict) -> Outcome:
             # context vectors are numpy arrays: a plain Python list as factor value is outside this property ("data columns")
             ctx = {k: (np.array(v) if isinstance(v, list) else v) for k, v in (case.get("ctx") or {}).items()}
             mm = model_matrix(case["formula"], df, ensure_full_rank=case["efr"], output=case["output"],
-                              materializer=case["mat"], context=ctx)
+                              materializer=case["mat"], context=ctx, na_action=case.get("na", "drop"))
     except Exception as e:
         out.fail("c02.materialization_raised", f"{case['formula']!r}: {type(e).__name__}: {str(e)[:200]}")
         return out
